@@ -289,6 +289,33 @@ fn ed25519(cfg: &Cfg, rep: &mut Report, h: u64) {
     // other lengths of payload are signed bytes too: a signature over a prefix is not one over the whole
     let r = call(&payload[..31], &pk, &sig);
     rep.check("corrupt", !accepted(&r), "C18/corrupt/ed25519/accepted/payload-truncated", || "truncated payload accepted".to_string());
+    // the Ed25519 verifier signs the payload as given, of whatever length: a genuine signature over a
+    // shorter or longer payload is accepted, one over a prefix or an extension of it is not
+    for len in [0usize, 1, 31, 33, 48, 64, 100] {
+        let mut p: Vec<u8> = payload.to_vec();
+        while p.len() < len {
+            p.push(rng.next() as u8);
+        }
+        p.truncate(len);
+        let s = sk.sign(&p).to_bytes();
+        let r = call(&p, &pk, &s);
+        rep.evaluations += 3;
+        rep.case(format!("ed25519/payload-len={len}/genuine/{}", accepted(&r)));
+        rep.check("genuine", accepted(&r), "C18/genuine/ed25519/rejected/other-payload-length", || format!("genuine ed25519 signature over a {len}-byte payload rejected: {r:?}"));
+        if len > 32 {
+            // signature over the first 32 bytes only, presented for the whole payload
+            let r = call(&p, &pk, &sig);
+            rep.case(format!("ed25519/payload-len={len}/prefix-signature/{}", accepted(&r)));
+            rep.check("corrupt", !accepted(&r), "C18/corrupt/ed25519/accepted/signature-over-prefix", || format!("a signature over the first 32 bytes was accepted for the {len}-byte payload"));
+            // the tail is authenticated too
+            let mut q = p.clone();
+            let n = q.len();
+            q[n - 1] ^= 1;
+            let r = call(&q, &pk, &s);
+            rep.case(format!("ed25519/payload-len={len}/tail-bit/{}", accepted(&r)));
+            rep.check("corrupt", !accepted(&r), "C18/corrupt/ed25519/accepted/payload-tail-bit", || format!("last byte of a {len}-byte payload altered, still accepted"));
+        }
+    }
     rep.end_history();
 }
 
@@ -340,7 +367,7 @@ fn encoder(cfg: &Cfg, rep: &mut Report) {
 }
 
 pub fn run(cfg: &Cfg, rep: &mut Report) {
-    rep.rule = "Per history a fresh P-256 (resp. Ed25519) key pair and 32-byte payload; a genuine assertion built with independent crypto (p256, ed25519-dalek, sha2) must be accepted by the real verifier examples; then single corruptions: every bit of the payload (256), sampled bits of key / signature / authenticator data / client data, all 256 flag bytes re-signed (accept iff UP and UV and not(BS without BE)), type variants, challenge variants (padded, standard alphabet, other payload, truncated, empty, hex, case), client data of 1023/1024/1025/2000 bytes, authenticator data of 33/36/37/120 bytes, payloads of 0/1/31 bytes, another signer. Encoder: all inputs of length 0-2 exhaustively (split over shards), random inputs of every length 3..=100, fill patterns. Distinct case = (verifier, corruption kind or flag bits, outcome). Not judged: payloads longer than 32 bytes (documented: first 32 bytes used) and algebraic signature malleability (host behaviour).".into();
+    rep.rule = "Per history a fresh P-256 (resp. Ed25519) key pair and 32-byte payload; a genuine assertion built with independent crypto (p256, ed25519-dalek, sha2) must be accepted by the real verifier examples; then single corruptions: every bit of the payload (256), sampled bits of key / signature / authenticator data / client data, all 256 flag bytes re-signed (accept iff UP and UV and not(BS without BE)), type variants, challenge variants (padded, standard alphabet, other payload, truncated, empty, hex, case), client data of 1023/1024/1025/2000 bytes, authenticator data of 33/36/37/120 bytes, payloads of 0/1/31 bytes, another signer; Ed25519 payloads of 0/1/31/33/48/64/100 bytes (genuine accepted, prefix signature and altered tail rejected). Encoder: all inputs of length 0-2 exhaustively (split over shards), random inputs of every length 3..=100, fill patterns. Distinct case = (verifier, corruption kind or flag bits, outcome). Not judged: WebAuthn payloads longer than 32 bytes (documented: first 32 bytes used) and algebraic signature malleability (host behaviour).".into();
     let nh = cfg.pick(12u64, 1200);
     for k in 0..nh {
         if cfg.runs(k) {
